@@ -18,6 +18,7 @@ func init() {
 	vRegister("c01_e2e", c01E2E)
 	vRegister("e2e_replay", e2eReplay)
 	vRegister("c01_nofile", c01Nofile)
+	vRegister("c01_resume", c01Resume)
 }
 
 var c01Sizes = []int64{0, 1, 511, 512, 513, 1023, 1024, 1025, 4096, 70000, 128*1024 - 1, 128 * 1024, 128*1024 + 1, 300000, 1 << 20}
@@ -236,6 +237,48 @@ func c01Nofile(d *vCtx) error {
 			details = append(details, detail)
 			d.add("runs", 1)
 			id++
+		}
+	}
+	if err := tr.Close(); err != nil {
+		return err
+	}
+	return vWriteJSON(d.path("details.json"), details)
+}
+
+// c01Resume: overwrite (-y) onto existing destination files of the same names (the prefix-hash
+// exchange of protocol 3/4, truncate-and-rewrite of protocol 2): a fault-free transfer must
+// still complete successfully and reproduce the sources, whatever was there.
+func c01Resume(d *vCtx) error {
+	base := e2eShmBase()
+	defer os.RemoveAll(base)
+	if err := e2eCaptureStdout(d.out); err != nil {
+		return err
+	}
+	tr, err := vNewTrace(d.path("obs.ndjson"))
+	if err != nil {
+		return err
+	}
+	var details []map[string]any
+	id := 910000
+	pairs := [][2]int64{{0, 1}, {0, 5000}, {1, 1}, {5000, 3000}, {3000, 5000}, {4096, 4096}, {1, 0}}
+	for _, upload := range []bool{true, false} {
+		for _, proto := range []int{2, 3, 4} {
+			for pi, pr := range pairs {
+				c := &e2eCase{ID: id, Seed: d.seed + int64(id), NamesFromTops: true, WatchdogMs: 40000}
+				c.Opts = e2eOpts{Upload: upload, Overwrite: true, Protocol: proto, Timeout: 10, Bufsize: 1 << 20, Binary: pi%2 == 0}
+				c.Nodes = []e2eNode{{Rel: "same.bin", Size: pr[0], Kind: 1}, {Rel: "other.txt", Size: 700, Kind: 0}}
+				c.Bases = []string{"", ""}
+				c.Pre = []e2eNode{{Rel: "same.bin", Size: pr[1], Kind: 2}, {Rel: "untouched.dat", Size: 300, Kind: 1}}
+				_, detail, err := e2eExec(c, e2eWorkDir(base, id), tr, false)
+				if err != nil {
+					return err
+				}
+				detail["case"] = c
+				details = append(details, detail)
+				os.RemoveAll(e2eWorkDir(base, id))
+				d.add("runs", 1)
+				id++
+			}
 		}
 	}
 	if err := tr.Close(); err != nil {
